@@ -282,8 +282,37 @@ def operator_tables(tier):
                         q = key[:i] + (b,) + key[i + 1:]
                         if (v is True or v is False) and table[q] is not v:
                             raise Violation('operator_not_monotone', f'{name}{key}={v} but {name}{q}={table[q]!r}')
+    # many operands: structured tuples (all equal / alternating / one odd one out) with no, one or two undefined positions
+    wide = [5, 8, 9, 16, 17, 31, 32, 33, 34, 40, 63, 64, 65, 66, 70] + ([] if tier == 'quick' else [96, 97, 128, 129, 130, 200, 257])
+    for name in sorted(refsem.NARY):
+        gt = getattr(gate, name)
+        for k in wide:
+            bases = [[True] * k, [False] * k, [i % 2 == 0 for i in range(k)], [i % 3 == 0 for i in range(k)],
+                     [i == k - 1 for i in range(k)], [i != 0 for i in range(k)]]
+            spots = sorted({0, 1, k // 2, k - 1, k - 2, max(0, k - 32), max(0, k - 33), max(0, k - 34), min(k - 1, 31), min(k - 1, 32)})
+            holes = [()] + [(p,) for p in spots] + [(0, k - 1), (max(0, k - 33), k - 1), (0, max(1, k - 33))]
+            for base in bases:
+                for hs in holes:
+                    hs = tuple(sorted(set(hs)))
+                    tup = [U if i in hs else b for i, b in enumerate(base)]
+                    v = gt.operator(*tup)
+                    checked += 1
+                    comps = []
+                    for fill in itertools.product((False, True), repeat=len(hs)):
+                        vals = list(base)
+                        for i, b in zip(hs, fill):
+                            vals[i] = b
+                        comps.append(bool(refsem.apply_gate(name, [1 if x else 0 for x in vals], 1) & 1))
+                    what = f'{name} over {k} operands (pattern {bases.index(base)}, undefined at {list(hs)})'
+                    if v is True or v is False:
+                        if any(cv is not v for cv in comps):
+                            raise Violation('operator_unsound', f'{what} = {v} but completions give {comps}')
+                    elif not (v == U):
+                        raise Violation('operator_bad_value', f'{what} = {v!r}')
+                    elif not hs:
+                        raise Violation('operator_undefined_on_total', f'{what} is Undefined')
     return {'evaluations': checked, 'distinct_nontrivial': checked, 'exhaustive': True,
-            'samples': ['every operator x every operand tuple in {F,T,U}^k, k<=4']}
+            'samples': ['every operator x every operand tuple in {F,T,U}^k, k<=4; n-ary operators over 5-70 (257) operands on structured tuples with 0-2 undefined positions']}
 
 
 SPEC = {
@@ -297,7 +326,7 @@ SPEC = {
              'sequence of evaluations through the three entry points while defining / changing / undefining inputs in place; every '
              'answer must be sound for the inputs fixed at that moment. Non-trivial: some gate is defined while an input it structurally '
              'depends on is undefined.'
-             ' Added during the build: zero-input circuits, circuits looked at and then partly fixed (replace_inputs) before evaluation, evaluation of what into_bench leaves behind, explicit outputs= selections as lists and tuples, transported Undefined marks.'),
+             ' Added during the build: zero-input circuits, circuits looked at and then partly fixed (replace_inputs) before evaluation, evaluation of what into_bench leaves behind, explicit outputs= selections as lists and tuples, transported Undefined marks, n-ary operators over 5-70 (257) operands on structured tuples.'),
     'assumptions': ['reference full tables from vlib/refsem.py'],
     'subs': [Sub('partial', cases, check_partial, {'quick': 1500, 'thorough': 75000}),
              Sub('dict_reuse', reuse_cases, check_reuse, {'quick': 1500, 'thorough': 50000})],
